@@ -23,11 +23,12 @@ RULE = ('cases = (grid class, N, spacing family, kind): kind "telescoping" = V-w
         'Robin side opened, integral change vs dt*net boundary flux. non-trivial = coefficient field not identically zero and '
         'field not constant; distinct by (class, N, families, kind, term, closure, sign-pattern hash)')
 ASSUMPTIONS = ['V = mesh.cellvolume (what domainIntegral uses); boundary-face areas from the exact geometric oracle',
-               'periodic closures use axes whose first and last cells have equal widths (the unequal case is the C03 known finding) and '
-               'central advection or diffusion across the periodic boundary; upwind/TVD across a periodic boundary is reported separately']
+               'upwind/TVD closures use periodic axes whose first and last cells have equal widths; the unequal case is exercised with '
+               'diffusion and central advection (explicit steps there are the known finding explicit/periodic-axis-unequal-end-cells)']
 
 KEY_SPH = 'SphericalGrid3D/measure-mismatch'
 KEY_UPW_PER = 'upwind-across-periodic-boundary'
+KEY_UNEQ = 'explicit/periodic-axis-unequal-end-cells'
 
 
 def boundary_functional(g, full, term, coef, udir=None, measure='exact'):
@@ -164,9 +165,13 @@ def telescoping(case, rng, cls, faces, meta, g, m):
     return bad, cov, maxerr, 'tel/%s/%d' % (term, pattern), {'term': term}, nontrivial
 
 
-def closed_setup(rng, cls, g, want_periodic):
+def unequal_ends(g, k):
+    return abs(g.w[k][0] - g.w[k][-1]) > 1e-12 * g.w[k][0]
+
+
+def closed_setup(rng, cls, g, want_periodic, allow_unequal=False):
     from ..oracles import AXKIND
-    capable = [k for k in range(g.nd) if AXKIND[cls][k] in ('len', 'ang') and abs(g.w[k][0] - g.w[k][-1]) <= 1e-12 * g.w[k][0]]
+    capable = [k for k in range(g.nd) if AXKIND[cls][k] in ('len', 'ang') and (allow_unequal or not unequal_ends(g, k))]
     periodic = [k for k in capable if want_periodic and rng.random() < 0.6]
     spec = {'periodic': periodic, 'sides': {}}
     for k in range(g.nd):
@@ -188,8 +193,10 @@ def make_periodic_compatible(arrs, periodic):
 
 def steps(case, rng, cls, faces, meta, g, m):
     cov, maxerr, bad = {}, {}, []
-    spec = closed_setup(rng, cls, g, case.get('periodic', True))
+    # periodic axes with unequal end cells: diffusion and central advection only (the upwind seam is a separate known finding)
+    spec = closed_setup(rng, cls, g, case.get('periodic', True), allow_unequal=case['scheme'] in ('none', 'central') and cls != 'SphericalGrid3D')
     periodic = spec['periodic']
+    uneq = [k for k in periodic if unequal_ends(g, k)]
     vals, ffam = gen.cell_field(rng, g.dims, str(rng.choice(['random', 'spike', 'step', 'positive'])))
     D, _ = gen.face_arrays(rng, g, str(rng.choice(['sign', 'random'])), positive=True)
     make_periodic_compatible(D, periodic)
@@ -203,9 +210,10 @@ def steps(case, rng, cls, faces, meta, g, m):
     make_periodic_compatible(u, periodic)
     scheme = case['scheme']
     mode = case['mode']
+    carry = case.get('carry', 'rebind')
     V = np.asarray(m.cellvolume, dtype=float)
     W = g.vol_midpoint() if cls == 'SphericalGrid3D' else None
-    nsteps = int(rng.integers(1, 6))
+    nsteps = int(rng.integers(1, 6)) if carry == 'rebind' else int(rng.integers(2, 6))
     rows = interior_index(g.dims)
     draws = [(float(10 ** rng.uniform(-6, 6)), float(10 ** rng.uniform(-1, 1)), str(rng.choice(LIMITERS)), float(10 ** rng.uniform(-3, 0)))
              for _ in range(nsteps)]
@@ -215,16 +223,20 @@ def steps(case, rng, cls, faces, meta, g, m):
         """returns (message of first violating step or None, worst ratio, worst ratio in the operators' own measure, finite?)"""
         BC = gen.make_bc(pf, m, g, spec)
         phi = pf.CellVariable(m, vals.copy(), BC)
+        # the documented time-loop idiom: a second variable holds the previous step and is refreshed with update_value()
+        phi_old = pf.CellVariable(m, vals.copy(), gen.make_bc(pf, m, g, spec)) if carry == 'update' else None
         uf, Df = gen.facevar(pf, m, u), gen.facevar(pf, m, D)
         worst, worst_own, msg = 0.0, 0.0, None
+        seam['explained'] = True
         with np.errstate(all='ignore'):
             for step in range(nsteps):
+                leak = None
                 dt_draw, alpha, limname, expl = draws[step]
                 I0 = phi.domainIntegral()
                 own0 = float((W * phi.value).sum()) if W is not None else None
                 if mode == 'implicit':
                     dt = dt_draw
-                    terms = [pf.transientTerm(phi, dt, alpha), -pf.diffusionTerm(Df)]
+                    terms = [pf.transientTerm(phi_old if carry == 'update' else phi, dt, alpha), -pf.diffusionTerm(Df)]
                     if scheme == 'central':
                         terms.append(pf.convectionTerm(uf))
                     elif scheme.startswith('upwind'):
@@ -239,6 +251,8 @@ def steps(case, rng, cls, faces, meta, g, m):
                     rowscale = (A @ np.abs(x) + np.abs(b))[rows].reshape(g.dims)
                     tol = 1e-9 * (dt / alpha) * float((V * rowscale).sum())
                     tol_own = 1e-9 * (dt / alpha) * float((W * rowscale).sum()) if W is not None else None
+                    if carry == 'update':
+                        phi_old.update_value(phi)
                 else:
                     # explicit: dt below the diffusion/advection limit only to keep numbers finite
                     hmin = min(float(np.min(g.w[k] * np.min(g.hscale(k)))) for k in range(g.nd))
@@ -267,7 +281,21 @@ def steps(case, rng, cls, faces, meta, g, m):
                         tot += AF[tuple(hi)] + AF[tuple(lo)]
                     tol = 1e-9 * (float((V * np.abs(phi.value)).sum()) + dt * float(tot.sum()) + dt * float((V * scale_rows).sum()))
                     tol_own = tol
-                    phi = new
+                    if uneq:
+                        # what the library's own boundary-face fluxes carry through the two images of each periodic seam
+                        fs = gen.facevar_arrays(face, g.nd)
+                        leak = 0.0
+                        for k in uneq:
+                            AF = g.area(k, 'exact') * fs[k]
+                            hi = [slice(None)] * g.nd
+                            lo = [slice(None)] * g.nd
+                            hi[k] = -1
+                            lo[k] = 0
+                            leak += dt * float(AF[tuple(hi)].sum() - AF[tuple(lo)].sum())
+                    if carry == 'update':
+                        phi.update_value(new)
+                    else:
+                        phi = new
                 if not np.all(np.isfinite(phi.value)):
                     return None, worst, worst_own, False
                 I1 = phi.domainIntegral()
@@ -277,22 +305,33 @@ def steps(case, rng, cls, faces, meta, g, m):
                 if W is not None:
                     dO = abs(float((W * phi.value).sum()) - own0)
                     worst_own = max(worst_own, (dO / tol_own if tol_own > 0 else (0.0 if dO == 0 else np.inf)) * 1e-9)
-                if ratio > 1.0 and msg is None:
-                    msg = '%s step %d (%s, dt %.3g, periodic axes %r): domainIntegral %.15g -> %.15g (|change| %.3g, allowed %.3g)' % (
-                        mode, step + 1, scheme, dt, periodic, I0, I1, dI, tol)
+                if ratio > 1.0:
+                    if leak is None or abs((I1 - I0) + leak) > tol:
+                        seam['explained'] = False
+                    if msg is None:
+                        msg = '%s step %d (%s, dt %.3g, periodic axes %r, unequal end cells on %r): domainIntegral %.15g -> %.15g (|change| %.3g, allowed %.3g)' % (
+                            mode, step + 1, scheme, dt, periodic, uneq, I0, I1, dI, tol)
         return msg, worst, worst_own, True
 
+    seam = {'explained': True}
     msg, worst, worst_own, finite = simulate(u)
     if not finite:
         return None, cov, maxerr, 'steps', {}, False, 'non-finite solution (singular system)'
     maxerr['steps-%s' % mode] = worst
     cov['steps:%s:%s' % (mode, scheme)] = 1
     cov['closure:%s' % ('periodic' if periodic else 'walls')] = 1
+    if uneq:
+        cov['periodic_unequal_ends:%s' % mode] = 1
     cov['solver_steps'] = nsteps
+    cov['carry:%s:%s' % (carry, mode)] = 1
     if msg:
         mech = 'steps/%s/%s' % (mode, scheme)
         if cls == 'SphericalGrid3D' and worst_own <= 1e-9:
             mech = KEY_SPH
+        elif uneq and mode == 'explicit' and seam['explained']:
+            # discriminating condition of the known finding: every violating step changed the integral by exactly what the
+            # library's own fluxes carry through the two images of the periodic seam (and by nothing else)
+            mech = KEY_UNEQ
         elif upw_per:
             # discriminating condition of the known finding: the same history with the velocity through the periodic
             # boundary faces set to zero must conserve (to rounding)
@@ -305,8 +344,8 @@ def steps(case, rng, cls, faces, meta, g, m):
             if fin2 and (msg2 is None or (cls == 'SphericalGrid3D' and w2own <= 1e-9)):
                 mech = KEY_UPW_PER
         bad.append((mech, msg))
-    return bad, cov, maxerr, 'steps/%s/%s/%s' % (mode, scheme, 'P' + ''.join(map(str, periodic))), \
-        {'mode': mode, 'scheme': scheme, 'periodic_axes': periodic, 'steps': nsteps, 'field': ffam}, ffam != 'const', None
+    return bad, cov, maxerr, 'steps/%s/%s/%s/%s' % (mode, scheme, carry, 'P' + ''.join(map(str, periodic))), \
+        {'mode': mode, 'scheme': scheme, 'carry': carry, 'periodic_axes': periodic, 'steps': nsteps, 'field': ffam}, ffam != 'const', None
 
 
 def reconfig(case, rng, cls, faces, meta, g, m):
@@ -452,7 +491,8 @@ def run_case(case):
     kind = case['kind']
     fam = case.get('family')
     if kind in ('steps', 'reconfig') and case.get('periodic', True) and fam is None:
-        fam = str(rng.choice(['uniform', 'symmetric', 'random']))
+        # end cells of equal width on most periodic cases; any family (unequal end cells) where the seam is expected to be exact
+        fam = str(rng.choice(['uniform', 'symmetric', 'random', 'geometric', 'smooth'] if case.get('scheme') in ('none', 'central') else ['uniform', 'symmetric', 'random']))
     nmax = case.get('nmax', ((6 if nd < 3 else 4) if case.get('deep') else (4 if nd < 3 else 3)) if kind == 'tel' else (6 if nd < 3 else 4))
     faces, meta = gen.gen_grid(rng, cls, nmin=1, nmax=nmax, family=fam)
     g = Geom(cls, faces)
@@ -473,7 +513,7 @@ def run_case(case):
         return {'verdict': 'inconclusive', 'key': key, 'msg': note, 'cov': cov, 'nontrivial': False}
     if bad:
         mech = bad[0][0]
-        if mech not in (KEY_SPH, KEY_UPW_PER):
+        if mech not in (KEY_SPH, KEY_UPW_PER, KEY_UNEQ):
             mech = '%s/%s' % (cls, mech)
         return {'verdict': 'violated', 'mech': mech, 'key': key, 'cov': cov, 'maxerr': maxerr, 'nontrivial': True,
                 'msg': '; '.join(b[1] for b in bad)[:700],
@@ -498,8 +538,9 @@ def plan(tier, seed):
                 i += 1
         for mode in ('implicit', 'explicit'):
             for scheme in SCHEMES:
-                for rep in range(4 if q else 80):
-                    cases.append({'cls': cls, 'kind': 'steps', 'mode': mode, 'scheme': scheme, 'periodic': rep % 2 == 0, 'seed': [seed, 1, ci, i]})
+                for rep in range(12 if q else 120):
+                    cases.append({'cls': cls, 'kind': 'steps', 'mode': mode, 'scheme': scheme, 'periodic': rep % 2 == 0, 'carry': 'update' if rep % 3 == 2 else 'rebind',
+                                  'seed': [seed, 1, ci, i]})
                     i += 1
         for scheme in ('none', 'central', 'upwind'):
             for rep in range(3 if q else 60):
@@ -524,7 +565,7 @@ def floors(agg, tier):
         for kind, need in (('steps', 20), ('open', 6)):
             if agg['cov'].get('kind:%s:%s' % (kind, cls), 0) < need:
                 out.append('kind:%s:%s < %d' % (kind, cls, need))
-    for k in ('closure:periodic', 'closure:walls', 'steps:implicit:upwind+tvd', 'steps:explicit:central', 'reconfig:to-periodic', 'reconfig:close-dirichlet'):
+    for k in ('closure:periodic', 'closure:walls', 'carry:update:explicit', 'carry:update:implicit', 'carry:rebind:explicit', 'periodic_unequal_ends:implicit', 'periodic_unequal_ends:explicit', 'steps:implicit:upwind+tvd', 'steps:explicit:central', 'reconfig:to-periodic', 'reconfig:close-dirichlet'):
         if agg['cov'].get(k, 0) < 10:
             out.append('%s < 10' % k)
     return out
